@@ -54,7 +54,7 @@ def ts_rules(facts, rep):
     # validation happens before the flag is cleared and before anything is emitted
     va = calls_matching(ee, r"^write::validate_extra_data$")
     wa = calls_matching(ee, r"io::Write::write_all$")
-    good = bool(va) and all(ee.dominates(va[0][0], c[0]) for c in clears) and all(ee.dominates(va[0][0], b) for b, _ in wa)
+    good = bool(va) and all(ee.call_dominates_stmt(va[0][0], c[0]) for c in clears + clears2) and all(ee.dominates(va[0][0], b) and va[0][0] != b for b, _ in wa)
     ok &= rep.check(good, rule, "I1:validate-first", where(ee, ee.span), "validate_extra_data()? dominates the flag reset and every emission",
                     "extra data can be emitted or extra-data mode left before validation")
     # I1-establish: every `writing_to_extra_field := true`
@@ -66,13 +66,13 @@ def ts_rules(facts, rep):
             if nm == "start_file_with_extra_data":
                 se = calls_matching(f, ZW + "start_entry$")
                 mut = calls_matching(f, r"switch_to$|mem::replace$")
-                good = bool(se) and f.dominates(se[0][0], bi) and not mut
+                good = bool(se) and f.call_dominates_stmt(se[0][0], bi) and not mut
                 ok &= rep.check(good, rule, "I1:establish@%s" % nm, where(f, s["span"]), "set right after start_entry()? with no compressor switch in between",
                                 "extra-data mode is entered without a preceding successful start_entry (sink not plain)")
             elif nm == "end_local_start_central_extra_data":
                 co = [x for x in _flag_assigns(f, "writing_to_central_extra_field_only") if x[3] == 1]
                 e2 = calls_matching(f, ZW + "end_extra_data$")
-                good = bool(co) and bool(e2) and f.dominates(e2[0][0], bi)
+                good = bool(co) and bool(e2) and f.call_dominates_stmt(e2[0][0], bi)
                 ok &= rep.check(good, rule, "I1:establish@%s" % nm, where(f, s["span"]), "central-only extra-data mode entered after end_extra_data()?, together with central_only",
                                 "central extra-data mode is entered without setting central_only (get_plain would be reached with a compressor active)")
             else:
@@ -145,7 +145,7 @@ def ts_rules(facts, rep):
                 if v != 1:
                     continue
                 se = calls_matching(f, ZW + "(start_entry|end_extra_data)$")
-                good = bool(se) and any(f.dominates(b, bi) for b, _ in se)
+                good = bool(se) and any(f.call_dominates_stmt(b, bi) for b, _ in se)
                 ok &= rep.check(good, rule, "I3:%s-after-entry@%s" % (flag, f.path.split("::")[-1]), where(f, s["span"]),
                                 "%s := true only after an entry was opened" % flag, "%s is set without a current entry" % flag)
     # last().unwrap() sites are guarded by one of the flags (or follow start_entry)
@@ -413,6 +413,10 @@ def run(ctx, rep):
     failclosed_rules(facts, rep)
     misuse_rules(facts, rep)
     patch_rules(facts, rep, rule="C12-PATCH")
+    from rules.C02 import limit_rules
+    limit_rules(facts, rep)            # reported as C12/C02-LIMIT: "every call that is valid in its state succeeds" -- the longest valid name/comment/extra field is accepted
+    from rules.C13 import raw_rules as _raw13
+    _raw13(facts, rep)                 # reported as C12/C13-RAW: the raw flag is consumed by the entry it was set for
     panic_rule(ctx, rep, "C12-PANIC", facts, is_write_root, void_rules=void)
     rep.floor("C12-PANIC", 60)
     rep.assume("sequences using the experimental encryption option beyond start_file+write are outside the property's quantifier (DESIGN.md O7)")
